@@ -21,6 +21,7 @@ pub fn def() -> PropDef {
         block: 1,
         flavours: &["tokio"],
         outcome: None,
+        extra_profiles: &["C01", "C02", "C03", "C06", "C10", "C11", "C12", "C13", "C17"],
     }
 }
 
@@ -121,8 +122,9 @@ pub fn check(v: &View) -> Vec<Violation> {
         let handled = |id: u64| v.cbs_of(a).find(|c| c.id == id && matches!(c.cb, Cb::Msg | Cb::Ask));
 
         // A: accepted before any stop request was issued => handled
-        if let (Some(fi), false, None) = (first_inv, failed, spec.timeout) {
-            if a.dead.is_some() {
+        // (a stream-attached actor may end with its stream without draining its mailbox, R9)
+        if let (Some(fi), false, None) = (first_inv, failed, spec.effective_timeout()) {
+            if a.dead.is_some() && !spec.entry.on_stream() {
                 for o in v.ops.iter().filter(|o| o.target == Some(aidx) && matches!(o.inner, Op::Send { .. } | Op::ForceSend { .. })) {
                     if matches!(o.res, Some(Res::Ok)) && o.end.unwrap() < fi {
                         crate::log::probe("c04_before_stop_checked");
@@ -153,7 +155,8 @@ pub fn check(v: &View) -> Vec<Violation> {
         }
         // D: awaiters
         let fs_exit = v.final_stopped(a).and_then(|c| c.exit);
-        let mut first_join_seen = false;
+        // join futures created early (JoinStart) take the value without being attributable here
+        let mut first_join_seen = v.ops.iter().any(|o| matches!(o.inner, Op::JoinStart { .. }) && !o.skipped());
         for o in v.ops.iter().filter(|o| o.target == Some(aidx) && o.ended() && !o.skipped()) {
             let kind = match o.inner {
                 Op::Await { .. } => "await",
